@@ -40,17 +40,26 @@ theorem search_mode_members_optional :
     ∧ replaceEmptyOf .search = true
     ∧ ((docScenarios .search).all fun s => conformsCmd .search s.1 s.2) = true := by decide +kernel
 
+theorem C19_witness_non_utf8_plan_null :
+    conformsCmdIn .search { docCtxOf .search false false with serFails := true } = false
+    ∧ conformsCmdIn .plan { docCtxOf .plan false false with serFails := true } = false
+    ∧ conformsCmdIn .rename { docCtxOf .rename false false with serFails := true } = true
+    ∧ conformsGen { replaceEmpty := false, noMatches := false, noRenames := false, serFails := true }
+        (.ref n!"Plan") (.fallible (.ref n!"Plan")) = false
+    ∧ conformsGen { replaceEmpty := false, noMatches := false, noRenames := false }
+        (.ref n!"Plan") (.fallible (.ref n!"Plan")) = true := by decide +kernel
+
 theorem C19_witness_history_shape_mismatch :
     conformsCmd .history false false = false
     ∧ (expectedTypes .history).map (·.1) = [n!"vscode.history"]
-    ∧ conformsGen ⟨false, false, false⟩ (.arr (.ref n!"HistoryEntry")) (.arr (.ref n!"HistoryItem")) = false := by
+    ∧ conformsGen { replaceEmpty := false, noMatches := false, noRenames := false } (.arr (.ref n!"HistoryEntry")) (.arr (.ref n!"HistoryItem")) = false := by
   decide +kernel
 
 theorem C19_witness_status_shape_mismatch :
     conformsCmd .status false false = false
     ∧ (expectedTypes .status).map (·.1) = [n!"vscode.status"]
-    ∧ conformsGen ⟨false, false, false⟩ (.ref n!"HistoryEntry") .str = false
-    ∧ conformsGen ⟨false, false, false⟩ (.ref n!"HistoryEntry") .null = false := by decide +kernel
+    ∧ conformsGen { replaceEmpty := false, noMatches := false, noRenames := false } (.ref n!"HistoryEntry") .str = false
+    ∧ conformsGen { replaceEmpty := false, noMatches := false, noRenames := false } (.ref n!"HistoryEntry") .null = false := by decide +kernel
 
 theorem exit_code_discipline :
     Gen.exitOk = 0 ∧ Gen.exitOkInterrupted.all (· != 0) = true ∧ Gen.okArmStdoutSites = 0
